@@ -127,13 +127,16 @@ pub struct RunCfg {
     /// SER: reaching the step cap while exactly one thread is runnable and every other thread has finished is a stall of that thread (an operation that
     /// does not complete in a bounded number of its own steps although nobody else exists who could help) instead of an inconclusive run
     pub lone_thread_step_cap_is_stall: bool,
+    /// SER, targeted pause: only hits inside a region the thread itself marked (`set_mark(true)` .. `set_mark(false)`) are counted -- so that the pause can be
+    /// aimed at one particular operation of a script ("the drop of this listener") rather than at the n-th hit of a site anywhere
+    pub pause_marked_only: bool,
 }
 impl RunCfg {
     pub fn ser(seed: u64, strategy: Strategy) -> Self {
-        Self { lane: Lane::Ser, seed, strategy, max_steps: 200_000, stall_k: 600, chaos: 0, watchdog: Duration::from_secs(30), trace: false, lone_thread_step_cap_is_stall: false }
+        Self { lane: Lane::Ser, seed, strategy, max_steps: 200_000, stall_k: 600, chaos: 0, watchdog: Duration::from_secs(30), trace: false, lone_thread_step_cap_is_stall: false, pause_marked_only: false }
     }
     pub fn free(seed: u64, chaos: u8) -> Self {
-        Self { lane: Lane::Free, seed, strategy: Strategy::Random { p_pct: 0 }, max_steps: u64::MAX, stall_k: 0, chaos, watchdog: Duration::from_secs(30), trace: false, lone_thread_step_cap_is_stall: false }
+        Self { lane: Lane::Free, seed, strategy: Strategy::Random { p_pct: 0 }, max_steps: u64::MAX, stall_k: 0, chaos, watchdog: Duration::from_secs(30), trace: false, lone_thread_step_cap_is_stall: false, pause_marked_only: false }
     }
 }
 
@@ -350,6 +353,20 @@ pub fn gate_wait() -> bool {
     }
 }
 
+/// SER: opens / closes a marked region of the calling thread's script (see `RunCfg::pause_marked_only`)
+pub fn set_mark(on: bool) {
+    if let Tl::Ser { sh, tid } = TL.with(|t| t.get()) { let mut st = unsafe { &*sh }.m.lock().unwrap(); st.th[tid].marked = on }
+}
+/// SER: a thread held by the targeted pause becomes runnable again now and is preferred for the next `favor_steps` scheduling decisions (the caller goes on
+/// until its next preemption point). Returns whether somebody was paused.
+pub fn resume_paused(favor_steps: u32) -> bool {
+    if let Tl::Ser { sh, .. } = TL.with(|t| t.get()) {
+        let mut st = unsafe { &*sh }.m.lock().unwrap();
+        if let Some(p) = st.th.iter().position(|t| t.status == Status::Paused) { st.th[p].status = Status::Runnable; st.favor = Some((p, favor_steps)); return true }
+    }
+    false
+}
+
 // --------------------------------------------------------------------------------------------- the conductor (SER)
 
 #[derive(Clone, Copy, PartialEq, Eq, Debug)]
@@ -364,6 +381,7 @@ struct Th {
     park_abort: bool,
     pause_until: u64,
     prio:       i64,
+    marked:     bool,
 }
 
 struct St {
@@ -387,6 +405,8 @@ struct St {
     pct_changes:  Vec<u64>,
     prio_floor:   i64,
     done_threads: usize,
+    /// a thread released by `resume_paused` runs first for that many scheduling decisions (as long as it can)
+    favor:        Option<(usize, u32)>,
 }
 
 pub struct Shared {
@@ -411,6 +431,10 @@ impl St {
         let step = self.step;
         for t in self.th.iter_mut() {
             if t.status == Status::Paused && step >= t.pause_until { t.status = Status::Runnable }
+        }
+        if let Some((p, n)) = self.favor {
+            if n > 0 && self.th[p].status == Status::Runnable && !(p == me && kind == rv::KIND_SPIN) { self.favor = Some((p, n - 1)); return p }
+            self.favor = None;
         }
         let cands = loop {
             let cands = self.runnable();
@@ -546,7 +570,7 @@ impl Shared {
         }
         // targeted pause
         if let Strategy::PauseAt { tid: ptid, site: psite, nth, budget, .. } = st.cfg.strategy.clone() {
-            if !st.pause_done && ptid == tid && psite == site {
+            if !st.pause_done && ptid == tid && psite == site && (!st.cfg.pause_marked_only || st.th[tid].marked) {
                 st.pause_count += 1;
                 if st.pause_count == nth {
                     st.pause_done = true;
@@ -651,7 +675,7 @@ fn panic_msg(e: Box<dyn std::any::Any + Send>) -> String {
 fn run_ser(cfg: &RunCfg, bodies: Vec<Body>) -> Report {
     let n = bodies.len();
     let mut rng = Rng::new(cfg.seed);
-    let mut th: Vec<Th> = (0..n).map(|_| Th { status: Status::NotStarted, streak: 0, h_streak: 0, last_site: u32::MAX, park_abort: false, pause_until: 0, prio: 0 }).collect();
+    let mut th: Vec<Th> = (0..n).map(|_| Th { status: Status::NotStarted, streak: 0, h_streak: 0, last_site: u32::MAX, park_abort: false, pause_until: 0, prio: 0, marked: false }).collect();
     let mut pct_changes = Vec::new();
     if let Strategy::Pct { depth, est_steps } = cfg.strategy {
         let mut prios: Vec<i64> = (0..n as i64).map(|i| i + depth as i64).collect();
@@ -662,7 +686,7 @@ fn run_ser(cfg: &RunCfg, bodies: Vec<Body>) -> Report {
     let sh = Arc::new(Shared {
         m: Mutex::new(St {
             current: NONE, th, rng, step: 0, switches: 0, hash: cfg.seed, cfg: cfg.clone(), abort: false, outcome: None, quiescent: None,
-            panics: Vec::new(), trace: Vec::new(), since_switch: 0, pause_count: 0, pause_done: false, pause_hit: false,
+            panics: Vec::new(), trace: Vec::new(), since_switch: 0, pause_count: 0, pause_done: false, pause_hit: false, favor: None,
             pct_changes, prio_floor: 0, done_threads: 0,
         }),
         cvs: (0..n).map(|_| Condvar::new()).collect(),
